@@ -2171,15 +2171,16 @@ class BackendMixin(PasswordHash):
         """
         helper for subclasses to create stub methods which auto-load backend.
         """
-        if cls.__backend:
-            raise AssertionError(
-                f"{cls.name}: _finalize_backend({cls.__backend!r}) failed to replace lazy loader"
-            )
-        cls.set_backend()
-        if not cls.__backend:
-            raise AssertionError(
-                f"{cls.name}: set_backend() failed to load a default backend"
-            )
+        with _backend_lock:
+            if cls.__backend:
+                # another thread loaded the backend after our caller had
+                # already picked up the stub; nothing left to do.
+                return
+            cls.set_backend()
+            if not cls.__backend:
+                raise AssertionError(
+                    f"{cls.name}: set_backend() failed to load a default backend"
+                )
 
 
 class SubclassBackendMixin(BackendMixin):
